@@ -14,12 +14,17 @@ use std::path::{Path, PathBuf};
 use std::time::Duration;
 
 pub const PROPERTY: &str = "C23";
-const AS_LIMIT: u64 = 4 << 30;
+/// Address-space limit of the child: 1 GiB (about 0.6 GiB above the child's own mappings, 256 MiB of
+/// which are the simulation thread's stack). Larger limits (4 GiB, 2 GiB were tried) let a corrupted
+/// count ask for 1-4 GiB successfully; TurDB then zero-fills / re-allocates GiBs for 5-25 CPU seconds,
+/// a slow-but-finite path whose duration depends on host load, i.e. a "hang" verdict that does not
+/// replay. Under 1 GiB such requests fail at once and are reported as `abort`, deterministically.
+const AS_LIMIT: u64 = 1 << 30;
 const FSIZE_LIMIT: u64 = 1 << 30;
 const MAX_PANICS_PER_RUN: usize = 6;
 /// CPU-time budget of one exercise step / decoder item, and of the whole (valid-input) build
-const STEP_TIMEOUT_DEFAULT_S: u32 = 20;
-const BUILD_TIMEOUT_S: u32 = 30;
+const STEP_TIMEOUT_DEFAULT_S: u32 = 60;
+const BUILD_TIMEOUT_S: u32 = 60;
 
 /// Step budget; `VSIM_DEBUG=<seconds>` overrides it (triage aid: is a "hang" merely slow?).
 pub fn step_timeout_s() -> u32 {
@@ -33,7 +38,8 @@ pub struct CorruptSim;
 fn setup_child(env_seed: u64) {
     // SAFETY: plain setrlimit/signal calls on our own process.
     unsafe {
-        let lim = libc::rlimit { rlim_cur: AS_LIMIT, rlim_max: AS_LIMIT };
+        // hard limit left higher: the panic hook lifts the soft limit while it symbolises a backtrace
+        let lim = libc::rlimit { rlim_cur: AS_LIMIT, rlim_max: 16 << 30 };
         libc::setrlimit(libc::RLIMIT_AS, &lim);
         let fl = libc::rlimit { rlim_cur: FSIZE_LIMIT, rlim_max: FSIZE_LIMIT };
         libc::setrlimit(libc::RLIMIT_FSIZE, &fl);
@@ -917,7 +923,7 @@ impl Engine for CorruptSim {
             "simulated": [
                 "stored-byte faults: applied by the harness to the closed database's files (bit flip, byte set, zeroed sector, truncation, extension, page swap, stale page from an older copy, zeroed page / WAL frame)",
                 "clock and getrandom (simdisk::install_clock_entropy), hashbrown seed source (plug_hash_order)",
-                "resource limits: RLIMIT_AS 4 GiB, RLIMIT_FSIZE 1 GiB (SIGXFSZ ignored -> EFBIG)"
+                "resource limits: RLIMIT_AS 1 GiB, RLIMIT_FSIZE 1 GiB (SIGXFSZ ignored -> EFBIG)"
             ]
         })
     }
@@ -926,7 +932,7 @@ impl Engine for CorruptSim {
         vec![
             "files change only while no handle is open (faults are applied between drop and Database::open); concurrent modification of mapped files is out of scope".into(),
             "dev profile (unwinding panics, overflow checks on): a panic is observed in-process with catch_unwind; in TurDB's release profile (panic=abort) each of these panics is a process abort".into(),
-            "an allocation that exceeds the 4 GiB address-space limit aborts the child and is reported as process-died; a run exceeding the watchdog is reported as hang".into(),
+            "an allocation that exceeds the 1 GiB address-space limit aborts the child and is reported as process-died; a run exceeding the watchdog is reported as hang".into(),
             "the `kill` end mode (files copied while the handle is open) stands for a killed process with an intact page cache: all written bytes present, WAL not checkpointed".into(),
             "silent out-of-bounds reads inside unsafe blocks that neither fault nor panic are not detected (no Miri pass in this engine)".into(),
             "a second schema makes Database::open fail on the unchanged tree (schema not found during catalog load); such runs only exercise the open-error path".into(),
